@@ -39,6 +39,7 @@ class AttrMeta(object):
         self.reverse = None               # AttrMeta
         self.lazy = bool(opts.get('lazy'))
         self.volatile = bool(opts.get('volatile'))
+        self.is_json = self.type == 'Json'
 
     @property
     def default(self):
@@ -48,6 +49,8 @@ class AttrMeta(object):
             return None
         if self.kind == 'opt' and self.type == 'str' and not self.nullable:
             return ''
+        if self.kind == 'opt' and self.type == 'Json':
+            return {}
         return None
 
     def __repr__(self):
@@ -67,6 +70,10 @@ class EntMeta(object):
 
     def scalars(self):
         return [a for a in self.attrs if not a.is_rel]
+
+    def queryable(self):
+        """scalar attributes a query can compare with a value (not Json)"""
+        return [a for a in self.attrs if not a.is_rel and not a.is_json]
 
     def to_ones(self):
         return [a for a in self.attrs if a.is_rel and not a.is_set]
